@@ -77,15 +77,18 @@ theorem readRows_table (sep : Char) (naRep : Str) (t : TableVal) (hsep : sep ≠
     (hc : CellsClean sep naRep t) :
     (tableLines sep naRep t).map (fun l => (splitOn sep l).map Cell.str) = tableRows naRep t ++ tailBlanks t := by
   rw [tableLines_eq]
-  simp only [List.map_append, List.map_map, tableRows, tailBlanks]
-  congr 1
-  · congr 1
-    · apply List.map_congr_left
-      intro cs hcs
-      simp only [Function.comp, strRow]
-      rw [splitOn_joinLine sep cs (fun x hx => (hc cs hcs x hx).1)]
-    · by_cases hd : dataEmpty t = true <;> simp [hd, blankRow, splitOn]
-  · simp [blankRow, splitOn]
+  have h1 : ((tableCells naRep t).map (joinLine sep)).map (fun l => (splitOn sep l).map Cell.str)
+      = tableRows naRep t := by
+    simp only [List.map_map, tableRows]
+    apply List.map_congr_left
+    intro cs hcs
+    simp only [Function.comp, strRow]
+    rw [splitOn_joinLine sep cs (fun x hx => (hc cs hcs x hx).1)]
+  have h2 : ((if dataEmpty t = true then [[]] else [] : List Str) ++ [[]]).map
+      (fun l => (splitOn sep l).map Cell.str) = tailBlanks t := by
+    unfold tailBlanks
+    by_cases hd : dataEmpty t = true <;> simp [hd, blankRow, splitOn]
+  rw [List.append_assoc, List.map_append, h1, h2]
 
 theorem tableLines_no_newline (sep : Char) (naRep : Str) (t : TableVal) (hsep : sep ≠ '\n')
     (hc : CellsClean sep naRep t) : ∀ l ∈ tableLines sep naRep t, '\n' ∉ l := by
